@@ -153,12 +153,17 @@ func validOptionalPort(port string) bool {
 	return true
 }
 
+// IsUnsafeMethod reports whether the method is not known to be safe
+// (RFC 9110 §9.2.1): everything except the methods registered as safe in the
+// IANA HTTP Method Registry, so that WebDAV write methods and unknown extension
+// methods invalidate like POST, PUT, DELETE and PATCH do (RFC 9111 §4.4).
 func IsUnsafeMethod(method string) bool {
 	switch method {
-	case http.MethodPost, http.MethodPut, http.MethodDelete, http.MethodPatch:
-		return true
-	default:
+	case http.MethodGet, http.MethodHead, http.MethodOptions, http.MethodTrace,
+		"PRI", "PROPFIND", "REPORT", "SEARCH", "QUERY":
 		return false
+	default:
+		return true
 	}
 }
 
